@@ -26,6 +26,7 @@ def parse_events(out):
 def run(ctx: Ctx):
     n = 12 if ctx.tier == "quick" else 160
     ctx.translate("gen_runtime")
+    ctx.translate("gen_runtime_cpp")
     ctx.translate("gen_cppgen")
     ctx.prove("Props/C12.v")
     ctx.make(["Model/RuntimeExec.vo"])
